@@ -250,6 +250,20 @@ def gen_long_tokens(rng, o, n):
     return out
 
 
+def gen_escape_offsets(o, maxoff=140):
+    """\\u escapes (2-, 3-, 4-byte results, NUL, a named escape) at every offset of a string or key, so
+    that the decoded bytes land on every position of the string buffer (which starts at 31 bytes and doubles)."""
+    out = []
+    escs = [b"\\u00e9", b"\\u20AC", b"\\ud83d\\ude00", b"\\u0000", b"\\n", b"\\u0041"]
+    for off in range(maxoff + 1):
+        for e in escs:
+            body = b"a" * off + e + b"zz"
+            out.append(line(b'"' + body + b'"', o, tag="escoff"))
+            if off % 3 == 0:
+                out.append(line(b'{"' + body + b'":[1,"' + body + b'"]}', o, tag="escoff"))
+    return out
+
+
 def gen_filtered(rng, o, n):
     out = []
     for _ in range(n):
